@@ -241,6 +241,40 @@ impl Prog {
 // ---------------------------------------------------------------------------------------------
 // printer
 
+thread_local! {
+    /// When set, operators are printed with the fewest parentheses the documented precedence
+    /// table allows (`.` > `substruct`/`as` > `!` > comparisons, `is` > `==` `!=` > `&&` `||` >
+    /// `or`, binary operators left-associative, `or` right-associative), so that the parser's
+    /// precedence handling is in the tested path as well.
+    pub static LEAN: std::cell::Cell<bool> = const { std::cell::Cell::new(false) };
+}
+
+fn lean() -> bool {
+    LEAN.with(|l| l.get())
+}
+
+/// Binding strength by the documented table; larger binds tighter.
+fn prec(e: &Expr) -> u8 {
+    match e {
+        Expr::Coalesce(..) => 1,
+        Expr::Bin(BinOp::And | BinOp::Or, ..) => 2,
+        Expr::Bin(BinOp::Eq | BinOp::Ne, ..) => 3,
+        Expr::Bin(..) | Expr::Is(..) => 4,
+        Expr::Not(_) => 6,
+        Expr::Substruct(..) | Expr::Cast(..) => 7,
+        Expr::Dot(..) => 8,
+        // `return e` and `recall f()` extend as far to the right as possible
+        Expr::Return(_) | Expr::Recall(..) => 0,
+        _ => 9,
+    }
+}
+
+/// Prints `e` as an operand of an operator of strength `min`; parenthesized if it binds looser.
+fn operand(e: &Expr, min: u8, ind: usize) -> String {
+    let s = print_expr(e, ind);
+    if prec(e) >= min || (s.starts_with('(') && s.ends_with(')') && !matches!(e, Expr::Bin(..) | Expr::Coalesce(..) | Expr::Is(..))) { s } else { format!("({s})") }
+}
+
 pub fn print_ty(t: &Ty) -> String {
     match t {
         Ty::Bool => "bool".into(),
@@ -289,7 +323,7 @@ pub fn print_fact(f: &FactLit, ind: usize) -> String {
 /// start of a struct literal, so anything not already parenthesized gets parentheses.
 fn print_head(e: &Expr, ind: usize) -> String {
     let s = print_expr(e, ind);
-    if s.starts_with('(') && s.ends_with(')') && matches!(e, Expr::Bin(..) | Expr::Coalesce(..)) {
+    if !lean() && s.starts_with('(') && s.ends_with(')') && matches!(e, Expr::Bin(..) | Expr::Coalesce(..)) {
         s
     } else {
         format!("({s})")
@@ -344,6 +378,7 @@ pub fn print_expr(e: &Expr, ind: usize) -> String {
             format!("{name} {{ {} }}", parts.join(", "))
         }
         Expr::Var(v) => v.clone(),
+        Expr::Not(x) if lean() => format!("!{}", operand(x, 6, ind)),
         Expr::Not(x) => format!("!({})", print_expr(x, ind)),
         Expr::Bin(op, a, b) => {
             let o = match op {
@@ -356,9 +391,17 @@ pub fn print_expr(e: &Expr, ind: usize) -> String {
                 BinOp::Le => "<=",
                 BinOp::Ge => ">=",
             };
+            if lean() {
+                // left-associative: the right operand must bind strictly tighter
+                let p = prec(e);
+                return format!("{} {o} {}", operand(a, p, ind), operand(b, p + 1, ind));
+            }
             format!("({} {o} {})", print_expr(a, ind), print_expr(b, ind))
         }
+        // right-associative
+        Expr::Coalesce(a, b) if lean() => format!("{} or {}", operand(a, 2, ind), operand(b, 1, ind)),
         Expr::Coalesce(a, b) => format!("({} or {})", print_expr(a, ind), print_expr(b, ind)),
+        Expr::Is(x, some) if lean() => format!("{} is {}", operand(x, 5, ind), if *some { "Some" } else { "None" }),
         Expr::Is(x, some) => format!("(({}) is {})", print_expr(x, ind), if *some { "Some" } else { "None" }),
         Expr::Arith(op, a, b) => {
             let f = match op {
@@ -369,10 +412,13 @@ pub fn print_expr(e: &Expr, ind: usize) -> String {
             };
             format!("{f}({}, {})", print_expr(a, ind), print_expr(b, ind))
         }
+        Expr::Dot(x, f) if lean() => format!("{}.{f}", operand(x, 8, ind)),
         Expr::Dot(x, f) => match &**x {
             Expr::Var(v) => format!("{v}.{f}"),
             x => format!("({}).{f}", print_expr(x, ind)),
         },
+        Expr::Substruct(x, n) if lean() => format!("{} substruct {n}", operand(x, 7, ind)),
+        Expr::Cast(x, n) if lean() => format!("{} as {n}", operand(x, 7, ind)),
         Expr::Substruct(x, n) => format!("(({}) substruct {n})", print_expr(x, ind)),
         Expr::Cast(x, n) => format!("(({}) as {n})", print_expr(x, ind)),
         Expr::Call(f, args) => format!("{f}({})", print_args(args, ind)),
